@@ -3,6 +3,7 @@ package props
 import (
 	"fmt"
 	"math"
+	"regexp"
 	"sort"
 	"strings"
 	"time"
@@ -19,6 +20,9 @@ type c03Config struct {
 	Card   int    `json:"cardLimit"`
 	PQS    string `json:"pqs"` // off | on (queries registered after the first event's block, so later blocks carry pqmr / agile tree)
 	Procs  int    `json:"gomaxprocs"`
+	// SortIdx: sort columns v, f, g are configured for the index before ingest, so rotated segments carry sort index
+	// files and sorts on these columns are served from them
+	SortIdx bool `json:"sortIndex,omitempty"`
 }
 
 type c03Job struct {
@@ -78,7 +82,7 @@ var c03Queries = []c03Query{
 	{"v>1 | stats count, max(f) by g", false, "filter-stats-by"}, {"* | stats dc(g), values(g)", false, "stats"},
 	{"* | timechart span=1s count", false, "timechart"}, {"* | timechart span=1m sum(v) by g", false, "timechart"},
 	{"* | stats count by m", false, "stats-by"},
-	{"* | sort v, f, id | fields id, v, f", true, "sort"}, {"* | sort -f, v | head 2", true, "sort"}, {"* | eval w=v*2 | where w>4 | fields id, w", false, "eval-where"},
+	{"* | sort v, f, id | fields id, v, f", true, "sort"}, {"* | sort -f, v | head 2", true, "sort"}, {"g=A | sort -v, id | fields id, v", true, "filter-sort"}, {"g=A | sort 2 v, id | fields id, v", true, "filter-sort"}, {"v>1 | sort f, id | fields id, f", true, "filter-sort"}, {"* | eval w=v*2 | where w>4 | fields id, w", false, "eval-where"},
 	{"* | dedup g | fields g", false, "dedup"}, {"* | top 1 g", false, "top"},
 	{"* | stats sum(x), avg(x), min(x), max(x)", false, "stats-mixed-column"}, {"g=A | stats sum(x), max(x)", false, "filter-stats-mixed-column"},
 	{"g=a", false, "filter-str"}, {"g=B", false, "filter-str"}, {"m=error", false, "filter-str"}, {"m=ERROR", false, "filter-str"}, {"m!=error", false, "filter-str"},
@@ -277,9 +281,19 @@ func c03Run(w *kernel.Worker, j *c03Job, rep *kernel.Report) (*Fail, error) {
 			rep.Transition(2)
 		}
 	} else {
-		kidx, err = LoadDataset(w, "c03k", evs, j.Config.Layout, rep)
+		kidx, err = LoadDatasetWith(w, "c03k", evs, j.Config.Layout, rep, func(idx string) error {
+			if !j.Config.SortIdx {
+				return nil
+			}
+			return w.Call("sortcols", map[string]interface{}{"index": idx, "columns": []string{"v", "f", "g"}}, nil)
+		})
 		if err != nil {
 			return die(err)
+		}
+		if j.Config.SortIdx {
+			if err := w.Call("waitsortindex", nil, nil); err != nil {
+				return die(err)
+			}
 		}
 	}
 	defer func() { _ = delIndex(w, 0, kidx) }()
@@ -314,6 +328,15 @@ func c03Run(w *kernel.Worker, j *c03Job, rep *kernel.Report) (*Fail, error) {
 	for i, q := range plan {
 		a, b := c03Norm(brs[i], q.Ordered), c03Norm(krs[i], q.Ordered)
 		if a != b {
+			if j.Config.SortIdx {
+				// one root cause with its own class: records that come from sort index lines carry timestamp 0
+				tsRe := regexp.MustCompile(`timestamp=\d+`)
+				if tsRe.ReplaceAllString(a, "timestamp=T") == tsRe.ReplaceAllString(b, "timestamp=T") && strings.Contains(b, "timestamp=0") {
+					fs.Add("C03/differs/timestamp-zero-in-records-served-from-a-sort-index",
+						fmt.Sprintf("dataset=%s query=%q\n  baseline: %s\n  config %s: %s", j.Dataset, q.Text, a, jstr(j.Config), b))
+					continue
+				}
+			}
 			fs.Add("C03/differs/"+q.Class+"/"+c03CfgClass(&j.Config),
 				fmt.Sprintf("dataset=%s query=%q window=[T0%+d,T0%+d)\n  baseline (one open block, card 501, pqs off, procs 1): %s\n  config %s: %s\n  accelerator files: %v",
 					j.Dataset, q.Text, q.S-T0, q.E-T0, a, jstr(j.Config), b, sortedKeys(accel)))
@@ -350,6 +373,9 @@ func c03CfgClass(c *c03Config) string {
 	}
 	if c.Procs != 1 {
 		parts = append(parts, "parallel")
+	}
+	if c.SortIdx {
+		parts = append(parts, "sortindex")
 	}
 	if len(parts) == 0 {
 		return "same-as-baseline"
@@ -393,6 +419,9 @@ func C03() int {
 						for _, p := range []string{"off", "on"} {
 							for _, pr := range []int{1, 4} {
 								emit(c03Job{Dataset: ds, Config: c03Config{Layout: l, Card: c, PQS: p, Procs: pr}})
+								if c == 501 && p == "off" {
+									emit(c03Job{Dataset: ds, Config: c03Config{Layout: l, Card: c, PQS: p, Procs: pr, SortIdx: true}})
+								}
 							}
 						}
 					}
